@@ -128,13 +128,26 @@ fn oracle(c: &EncCase) -> Verdict {
     let reference: Vec<f64> = if matches!(c.entry, Entry::Array | Entry::SingleComplex) { reference_coeffs(n, &full_vec, scale.abs().max(f64::MIN_POSITIVE)) } else { vec![] };
     let coef_mag = if matches!(c.entry, Entry::Array | Entry::SingleComplex) { reference.iter().map(|x| x.abs()).fold(0.0, f64::max) } else { max_in * eff_scale.abs() };
     let scaled_bits = if coef_mag >= 1.0 { coef_mag.log2() } else { 0.0 };
-    let run = || -> Plaintext { match c.entry {
+    // half of the cases go through the destination forms, into a plaintext / vector that was used before (a constant at the
+    // first level: every data word non-zero, other level, other scale)
+    let used = c.len_sel & 1 == 1;
+    let run = || -> Plaintext { if used {
+        let mut d = enc.encode_i64_single_new(7, Some(cx.levels[0].parms_id));
+        match c.entry {
+            Entry::Array => enc.encode_c64_array(&vals, Some(lid), scale, &mut d),
+            Entry::SingleReal => enc.encode_f64_single(single, Some(lid), scale, &mut d),
+            Entry::SingleComplex => enc.encode_c64_single(vals.first().cloned().unwrap_or_default(), Some(lid), scale, &mut d),
+            Entry::Integer => enc.encode_i64_single(ival, Some(lid), &mut d),
+            Entry::CoeffList => enc.encode_f64_polynomial(&list, Some(lid), scale, &mut d),
+        }
+        d
+    } else { match c.entry {
         Entry::Array => enc.encode_c64_array_new(&vals, Some(lid), scale),
         Entry::SingleReal => enc.encode_f64_single_new(single, Some(lid), scale),
         Entry::SingleComplex => enc.encode_c64_single_new(vals.first().cloned().unwrap_or_default(), Some(lid), scale),
         Entry::Integer => enc.encode_i64_single_new(ival, Some(lid)),
         Entry::CoeffList => enc.encode_f64_polynomial_new(&list, Some(lid), scale),
-    } };
+    } } };
     let r = catch(run);
     // ---- refusal clauses
     let bad_scale = c.entry != Entry::Integer && refusal_scale.is_some();
@@ -184,14 +197,16 @@ fn oracle(c: &EncCase) -> Verdict {
     }
     // decoding returns the input within the rounding-plus-double-precision bound
     let tol = ckks_tolerance(n, c.logn, eff_scale, max_in, 1.0, qwords) + 8.0 * f64::EPSILON * max_in;
-    let out = match catch(|| enc.decode_new(&p)) { Ok(o) => o, Err(pn) => return fail_key(key, format!("decode of a freshly encoded plaintext panicked: {pn}")) };
+    let out = match catch(|| if used { let mut d = vec![Complex64::new(1e300, -1e300); slots + 3]; enc.decode(&p, &mut d); d } else { enc.decode_new(&p) }) { Ok(o) => o, Err(pn) => return fail_key(key, format!("decode of a freshly encoded plaintext panicked: {pn}")) };
     match c.entry {
         Entry::CoeffList => {
-            let dl = match catch(|| enc.decode_polynomial_new(&p)) { Ok(o) => o, Err(pn) => return fail_key(key, format!("decode_polynomial panicked: {pn}")) };
+            let dl = match catch(|| if used { let mut d = vec![-1e300f64; n + 3]; enc.decode_polynomial(&p, &mut d); d } else { enc.decode_polynomial_new(&p) }) { Ok(o) => o, Err(pn) => return fail_key(key, format!("decode_polynomial panicked: {pn}")) };
+            check!(dl.len() == n, "decode_polynomial returned {} coefficients for N={n}", dl.len());
             let tolc = tol / n as f64 * 4.0 + 1.0 / scale;
             for i in 0..n { let want = list.get(i).cloned().unwrap_or(0.0); check!((dl[i] - want).abs() <= tolc, "decode_polynomial: coefficient {i} = {:e}, input {:e} (bound {:e})", dl[i], want, tolc); }
         }
         _ => {
+            check!(out.len() == slots, "decode returned {} slots instead of {slots}", out.len());
             for i in 0..slots {
                 let want = match c.entry { Entry::Array => vals.get(i).cloned().unwrap_or_default(), Entry::SingleComplex => vals.first().cloned().unwrap_or_default(),
                     Entry::SingleReal => Complex64::new(single, 0.0), _ => Complex64::new(ival as f64, 0.0) };
@@ -202,7 +217,7 @@ fn oracle(c: &EncCase) -> Verdict {
     }
     let above_prime = c.entry == Entry::Integer && cx.levels[level].moduli.iter().any(|q| ival.unsigned_abs() > *q);
     Verdict::Pass(Info::new(neg || scaled_bits > 64.0 || level > 0 || above_prime).label(format!("{:?}", c.entry)).label(class).label_if(neg, "negative/complex").label_if(level > 0, "lower level")
-        .label_if(above_prime, "integer above a prime").label(format!("primes:{}", match c.moduli.len() { 1 => "1", 2..=4 => "2-4", 5..=9 => "5-9", _ => "10-19" })))
+        .label_if(above_prime, "integer above a prime").label_if(used, "destination forms into used objects").label(format!("primes:{}", match c.moduli.len() { 1 => "1", 2..=4 => "2-4", 5..=9 => "5-9", _ => "10-19" })))
 }
 
 pub fn def() -> PropertyDef {
